@@ -71,6 +71,7 @@ class Acc:
         self.preempt_hist = {}
         self.samples = []
         self.determinism_checks = 0
+        self.stalled = 0              # tasks abandoned because their worker never answered
 
     def merge(self, o):
         self.runs += o.runs
@@ -87,6 +88,7 @@ class Acc:
             self.preempt_hist[k] = self.preempt_hist.get(k, 0) + v
         self.samples = (self.samples + o.samples)[:6]
         self.determinism_checks += o.determinism_checks
+        self.stalled += getattr(o, "stalled", 0)
 
 
 def _flush(scn, batch, acc):
@@ -199,6 +201,7 @@ def explore_parallel(pool, scn: Scenario, bound, deadline, procs=16, max_runs=12
     acc = Acc()
     pending = deque([[{}]])
     inflight = []
+    last = time.time()
     while pending or inflight:
         while pending and len(inflight) < 2 * procs:
             roots = pending.popleft()
@@ -218,8 +221,19 @@ def explore_parallel(pool, scn: Scenario, bound, deadline, procs=16, max_runs=12
             else:
                 still.append(r)
         inflight = still
-        if not got:
+        if got:
+            last = time.time()
+        else:
             time.sleep(0.003)
+            now = time.time()
+            if inflight and now > deadline + STALL_S and now - last > STALL_S:
+                # a task that never comes back (a worker process lost while the pool replaced it, a wedged fork):
+                # the schedules it held stay unexplored — recorded, not a verdict — and the pool is rebuilt
+                acc.cut = True
+                acc.stalled += len(inflight)
+                if hasattr(pool, "reset"):
+                    pool.reset()
+                return acc
     return acc
 
 
@@ -228,11 +242,62 @@ def sample_parallel(pool, scn: Scenario, devs_list, deadline, chunk=50):
     sj = scn.to_json()
     tasks = [(sj, devs_list[i:i + chunk], 0, deadline, False, 0) for i in range(0, len(devs_list), chunk)]
     acc = Acc()
-    for a, _ in pool.imap_unordered(explore, tasks, chunksize=1):
+    it = pool.imap_unordered(explore, tasks, chunksize=1)
+    done = 0
+    while done < len(tasks):
+        try:
+            a, _ = it.next(timeout=max(STALL_S, deadline - time.time() + STALL_S))
+        except StopIteration:
+            break
+        except mp.TimeoutError:
+            acc.cut = True
+            acc.stalled += len(tasks) - done
+            if hasattr(pool, "reset"):
+                pool.reset()
+            break
         acc.merge(a)
+        done += 1
     return acc
 
 
+STALL_S = 45.0
+
+
+class PoolBox:
+    """a worker pool that can be rebuilt when a task never comes back"""
+
+    def __init__(self, procs):
+        self.procs = procs
+        self.resets = 0
+        self._make()
+
+    def _make(self):
+        ctx = mp.get_context("fork")
+        self.inner = ctx.Pool(processes=self.procs, maxtasksperchild=200)
+
+    def reset(self):
+        try:
+            self.inner.terminate()
+        except Exception:  # noqa: BLE001
+            pass
+        self.resets += 1
+        self._make()
+
+    def apply(self, *a, **k):
+        return self.inner.apply(*a, **k)
+
+    def apply_async(self, *a, **k):
+        return self.inner.apply_async(*a, **k)
+
+    def imap_unordered(self, *a, **k):
+        return self.inner.imap_unordered(*a, **k)
+
+    def terminate(self):
+        self.inner.terminate()
+
+    def join(self):
+        self.inner.join()
+
+
 def make_pool(procs):
-    ctx = mp.get_context("fork")
-    return ctx.Pool(processes=procs, maxtasksperchild=200)
+    return PoolBox(procs)
